@@ -1,17 +1,17 @@
 #!/bin/bash
-# usage: tools/round7.sh <Cxx>  -- verify the two round-7 packages of one property (tools/verify_pkg.py), then run the
+# usage: [R7_OUT=/tmp/wt-out8 R7_LETTERS="O" R7_ROUND=8] tools/round7.sh <Cxx>  -- verify the two round-7 packages of one property (tools/verify_pkg.py), then run the
 # property's quick check against each kept change on a scratch copy; result lines in .work/r7/<Cxx>.txt
-V="$(cd "$(dirname "$0")/.." && pwd)"; P="$1"; cd "$V"; mkdir -p .work/r7
-out=".work/r7/$P.txt"; : > "$out"
+V="$(cd "$(dirname "$0")/.." && pwd)"; P="$1"; cd "$V"; mkdir -p .work/r${R7_ROUND:-7}
+out=".work/r${R7_ROUND:-7}/$P.txt"; : > "$out"
 args=""
-for X in M N; do
-  d=/tmp/wt-out7/$P/$X
+for X in ${R7_LETTERS:-M N}; do
+  d=${R7_OUT:-/tmp/wt-out7}/$P/$X
   [ -f $d/meta.json ] || { echo "$P-$X missing" >> "$out"; continue; }
-  python3 tools/verify_pkg.py $d 7 >> "$out" 2>&1 && args="$args $V/seeded/$P-$X/patch.diff:$P"
+  python3 tools/verify_pkg.py $d ${R7_ROUND:-7} >> "$out" 2>&1 && args="$args $V/seeded/$P-$X/patch.diff:$P"
 done
 if [ -n "$args" ]; then
   S=/tmp/scr-$P; git -C /repo worktree remove --force $S 2>/dev/null; git -C /repo worktree add -q --detach $S HEAD
-  tools/runmuts.sh $S "$V/.work/r7/$P.tsv" $args >> "$out" 2>&1
+  tools/runmuts.sh $S "$V/.work/r${R7_ROUND:-7}/$P.tsv" $args >> "$out" 2>&1
   git -C /repo worktree remove --force $S
 fi
 echo DONE >> "$out"
